@@ -229,3 +229,22 @@ fn c08_q_nested_retry_member_contributes_leaves() {
 	assert!(locks.len() == 3 && strictly_sorted(locks), "C08_nested_retrying_collection_contributes_its_leaves_to_the_one_order");
 	kani::cover!(true, "end");
 }}
+
+// ---- thorough tier: 4 members over 5 locks, both arrangements symbolic ----
+vharness! {
+#[kani::unwind(8)]
+fn c08_t_boxed_vs_ref_4_of_5() {
+	let u = <[M; 5] as Make<5>>::make([0; 5]);
+	let p: [usize; 4] = core::array::from_fn(|_| idx::<5>());
+	let q: [usize; 4] = core::array::from_fn(|_| idx::<5>());
+	let c1 = BoxedLockCollection::try_new([&u[p[0]], &u[p[1]], &u[p[2]], &u[p[3]]]);
+	let m2 = [&u[q[0]], &u[q[1]], &u[q[2]], &u[q[3]]];
+	let c2 = RefLockCollection::try_new(&m2);
+	if let (Some(c1), Some(c2)) = (&c1, &c2) {
+		let (l1, l2) = (cp::boxed_locks(c1), cp::ref_locks(c2));
+		assert!(l1.len() == 4 && l2.len() == 4, "C08_cached_list_has_one_entry_per_leaf");
+		assert!(same_relative_order(l1, l2, &u), "C08_common_locks_in_same_relative_order_whatever_the_listing");
+		kani::cover!(p[0] == q[3] && p[3] == q[0], "reversed_ends");
+	}
+	kani::cover!(c1.is_some() && c2.is_some(), "both_accepted");
+}}
